@@ -356,7 +356,8 @@ func Run(c *vl.Ctx) {
 		}
 	}
 	c.Count("bases", int64(len(bases)))
-	c.Count("programs_compiled", r.Programs)
+	r.Report()
+	r.Close()
 	c.Assume = append(c.Assume, "differential oracle: base vs variant on the same compiler; the reference interpreter is not consulted",
 		"B binds only pure expressions that mention a typed operand (so `const b := e` has e's contextual type) and never a loop condition; C only touches lets whose name is never assigned, incremented, mutably borrowed or used as a method receiver anywhere in the function")
 	c.Finish(vl.Coverage{Evaluations: int64(len(pairs)), Exhaustive: true,
